@@ -138,6 +138,8 @@ struct Result {
     std::string out;                 // rendered bytes (up to the failing field when kind != OK)
     std::vector<Field> fields;
     bool unmodelled = false;         // a FLOAT or NULLTEXT argument was rendered: `out` is not authoritative
+    std::vector<size_t> boundaries;  // offsets in `out` where one piece of output ends and the next begins: field starts/ends, brace
+                                     // escapes, between padding and the padded text, and between any two pad characters
     size_t fail_pos = 0;             // byte offset of the field that failed
 };
 
@@ -201,7 +203,8 @@ inline std::string digits_of(unsigned long long mag, int base, bool upper) {
 }
 
 // Rendering of one selected argument.  Returns false for CHAR_PAD_CONTRACT.
-inline bool render_field(const Spec &sp, const Arg &a, std::string &out, Field &fi, bool &unmodelled) {
+inline bool render_field(const Spec &sp, const Arg &a, std::string &out, Field &fi, bool &unmodelled, std::vector<size_t> *bounds = nullptr) {
+    auto padding = [&](size_t n, char ch) { for (size_t k = 0; k < n; k++) { if (bounds) bounds->push_back(out.size()); out += ch; } if (bounds) bounds->push_back(out.size()); };
     const char padc = sp.pad >= 0 ? (char)sp.pad : ' ';
     const size_t width = sp.width > 0 ? (size_t)sp.width : 0;
     if (a.is_integer()) {
@@ -221,9 +224,9 @@ inline bool render_field(const Spec &sp, const Arg &a, std::string &out, Field &
         size_t natural = sign.size() + prefix.size() + digits.size();
         size_t fill = width > natural ? width - natural : 0;
         fi.sign = !sign.empty(); fi.prefix = !prefix.empty(); fi.padding = fill;
-        if (sp.zero) out += sign + prefix + std::string(fill, padc) + digits;
-        else if (sp.align == 1) out += sign + prefix + digits + std::string(fill, padc);
-        else out += std::string(fill, padc) + sign + prefix + digits;       // numbers: right by default
+        if (sp.zero) { out += sign + prefix; padding(fill, padc); out += digits; }
+        else if (sp.align == 1) { out += sign + prefix + digits; padding(fill, padc); }
+        else { padding(fill, padc); out += sign + prefix + digits; }       // numbers: right by default
         return true;
     }
     std::string text;
@@ -233,8 +236,8 @@ inline bool render_field(const Spec &sp, const Arg &a, std::string &out, Field &
     if (sp.precision >= 0 && text.size() > (size_t)sp.precision) { text.resize((size_t)sp.precision); fi.cut = true; }
     size_t fill = width > text.size() ? width - text.size() : 0;
     fi.padding = fill;
-    if (sp.align == 2) out += std::string(fill, padc) + text;
-    else out += text + std::string(fill, padc);                             // text: left by default
+    if (sp.align == 2) { padding(fill, padc); out += text; }
+    else { out += text; padding(fill, padc); }                              // text: left by default
     return true;
 }
 
@@ -244,8 +247,8 @@ inline Result interpret(const std::string &fmt, const std::vector<Arg> &args) {
     const size_t n = fmt.size();
     while (i < n) {
         char ch = fmt[i];
-        if (ch == '{' && i + 1 < n && fmt[i + 1] == '{') { r.out += '{'; i += 2; continue; }
-        if (ch == '}' && i + 1 < n && fmt[i + 1] == '}') { r.out += '}'; i += 2; continue; }
+        if (ch == '{' && i + 1 < n && fmt[i + 1] == '{') { r.boundaries.push_back(r.out.size()); r.out += '{'; r.boundaries.push_back(r.out.size()); i += 2; continue; }
+        if (ch == '}' && i + 1 < n && fmt[i + 1] == '}') { r.boundaries.push_back(r.out.size()); r.out += '}'; r.boundaries.push_back(r.out.size()); i += 2; continue; }
         if (ch != '{') { r.out += ch; i++; continue; }
         Field fi; size_t next = 0;
         r.fail_pos = i;
@@ -258,7 +261,9 @@ inline Result interpret(const std::string &fmt, const std::vector<Arg> &args) {
         size_t sel = fi.spec.index >= 0 ? (size_t)fi.spec.index - 1 : seq++;   // &0 wraps to "not supplied"
         if (sel >= args.size()) { r.kind = OUT_OF_RANGE; return r; }
         fi.arg = sel;
-        if (!render_field(fi.spec, args[sel], r.out, fi, r.unmodelled)) { r.kind = CHAR_PAD_CONTRACT; return r; }
+        r.boundaries.push_back(r.out.size());
+        if (!render_field(fi.spec, args[sel], r.out, fi, r.unmodelled, &r.boundaries)) { r.kind = CHAR_PAD_CONTRACT; return r; }
+        r.boundaries.push_back(r.out.size());
         r.fields.push_back(fi);
         i = next;
     }
